@@ -144,6 +144,9 @@ class ScopeGen(object):
         return self.r.random() < p
 
     def name(self):
+        if self.ch(self.risky * 0.2):
+            self.hit('risky:declares-arguments')
+            return 'arguments'
         return self.r.choice(POOL)
 
     def ref(self):
@@ -330,6 +333,8 @@ HAND = [
     'function outer(g){ var f = function g(){ return g; }; return g; }',
     'function f(){ if (1) { function h(){} } return h; }',
     'function f(){ for (var k in window) { k; } return k; }',
+    'function f(arguments){ return function(){ return arguments; }; }',
+    'var arguments = 5; function g(){ return arguments; }',
 ]
 
 
